@@ -247,12 +247,66 @@ def n2(e: Engine, rep: Report):
 def check_reply_uses(e: Engine, rep: Report, ctx: Ctx, short: str):
     f = ctx.func
     where = '%s[%s]' % (f.qname, short)
+    # locals that stand for self.client
+    alias = {t.id for a in walk_own(f.node) if isinstance(a, ast.Assign) and
+             ast.unparse(a.value) == 'self.client'
+             for t in a.targets if isinstance(t, ast.Name)}
+
+    def is_client(x):
+        return ast.unparse(x) == 'self.client' or (
+            isinstance(x, ast.Name) and x.id in alias)
+
+    def command_of(x):
+        """the client command whose reply the expression x evaluates to:
+        self.client.cmd(...), or a bound self.client.cmd / a lambda / a
+        nested function returning such a reply, run by a helper of this
+        object that hands back what the callable returned"""
+        if not isinstance(x, ast.Call):
+            return None
+        if isinstance(x.func, ast.Attribute) and \
+                x.func.attr in CLIENT_COMMANDS and is_client(x.func.value):
+            return x.func.attr
+        fw = _forwarders(e, ctx.self_cls)
+        if isinstance(x.func, ast.Attribute) and \
+                isinstance(x.func.value, ast.Name) and \
+                x.func.value.id == 'self' and x.func.attr in fw:
+            i = fw[x.func.attr]
+            if i < len(x.args):
+                c = x.args[i]
+                if isinstance(c, ast.Attribute) and \
+                        c.attr in CLIENT_COMMANDS and is_client(c.value):
+                    return c.attr
+                if isinstance(c, ast.Lambda):
+                    return command_of(c.body)
+                if isinstance(c, ast.Name):
+                    # a nested function that returns the reply
+                    for d in ast.walk(f.node):
+                        if isinstance(d, ast.FunctionDef) and \
+                                d.name == c.id and d is not f.node:
+                            for r in ast.walk(d):
+                                if isinstance(r, ast.Return) and \
+                                        r.value is not None:
+                                    v = r.value
+                                    if isinstance(v, ast.Name):
+                                        for a in ast.walk(d):
+                                            if isinstance(a, ast.Assign) \
+                                                    and any(
+                                                    isinstance(t, ast.Name)
+                                                    and t.id == v.id
+                                                    for t in a.targets):
+                                                v = a.value
+                                    cmd = command_of(v)
+                                    if cmd:
+                                        return cmd
+        return None
     sites = []
+    cmd_of = {}
     for n in walk_own(f.node):
-        if isinstance(n, ast.Call) and isinstance(n.func, ast.Attribute) \
-                and n.func.attr in CLIENT_COMMANDS and \
-                ast.unparse(n.func.value) == 'self.client':
-            sites.append(n)
+        if isinstance(n, ast.Call):
+            cmd = command_of(n)
+            if cmd:
+                sites.append(n)
+                cmd_of[id(n)] = cmd
     if not sites:
         return
     rep.functions.add(f.qname)
@@ -262,7 +316,7 @@ def check_reply_uses(e: Engine, rep: Report, ctx: Ctx, short: str):
             parents[id(c)] = n
     for call in sites:
         rep.evaluations += 1
-        cmd = call.func.attr
+        cmd = cmd_of[id(call)]
         text = 'reply of client.%s() in %s' % (cmd, f.name)
         ex = N2_EXEMPT.get((f.name, cmd))
         par = parents.get(id(call))
@@ -299,6 +353,51 @@ def check_reply_uses(e: Engine, rep: Report, ctx: Ctx, short: str):
                     'examined): a rejection at this stage goes unnoticed '
                     'and the attempt can still report success' % cmd,
                     loc=f.loc(call))
+
+
+_FW_CACHE = {}
+
+
+def _forwarders(e: Engine, cq: str):
+    """{method name: position (after self) of a callable parameter whose
+    result the method hands back} - `return func(*args)` possibly under a
+    timeout, or through another such method"""
+    key = (id(e), cq)
+    if key in _FW_CACHE:
+        return _FW_CACHE[key][1]
+    meths = {}
+    for k in e.p.mro(cq):
+        c = e.p.classes.get(k)
+        if c is None:
+            continue
+        for nm, m in c.methods.items():
+            meths.setdefault(nm, m)
+    out = {}
+    changed = True
+    while changed:
+        changed = False
+        for nm, m in meths.items():
+            if nm in out:
+                continue
+            params = m.params[1:]
+            for r in walk_own(m.node):
+                if not (isinstance(r, ast.Return) and
+                        isinstance(r.value, ast.Call)):
+                    continue
+                c = r.value
+                if isinstance(c.func, ast.Name) and c.func.id in params:
+                    out[nm] = params.index(c.func.id)
+                    changed = True
+                elif isinstance(c.func, ast.Attribute) and \
+                        isinstance(c.func.value, ast.Name) and \
+                        c.func.value.id == 'self' and c.func.attr in out:
+                    i = out[c.func.attr]
+                    if i < len(c.args) and isinstance(c.args[i], ast.Name) \
+                            and c.args[i].id in params:
+                        out[nm] = params.index(c.args[i].id)
+                        changed = True
+    _FW_CACHE[key] = (e, out)
+    return out
 
 
 def _peer_talkers(e: Engine, cq: str):
@@ -804,12 +903,18 @@ def n7(e: Engine, rep: Report, rule: str):
         ctx = e.method_ctx(cq, '_try_pipe_all_rcpts')
         if ctx.func.cls.qname != cq and cq != 'slimta.relay.pipe.PipeRelay':
             continue
-        g = e.build(ctx, raises=pool.make_raises(e), assert_raises=False)
+        # with the helpers the fill loop may have been moved into (also
+        # when run through gevent.with_timeout)
+        g = e.build(ctx, raises=pool.make_raises(e), assert_raises=False,
+                    inline=e.inline_same_self(
+                        deny=['_exec_process', '_process_args',
+                              'raise_error']), max_depth=3)
         where = ctx.func.qname
         rep.functions.add(where)
         rets = [n for n in g.of_kind('stmt')
                 if isinstance(n.ast, ast.Return) and
-                isinstance(n.ast.value, ast.Name)]
+                isinstance(n.ast.value, ast.Name) and
+                n.frame is g.entry.frame]
         for r in rets:
             rv = path_of(r.ast.value, r.frame)
             # loops over envelope.recipients that assign rv[<loopvar>] in
@@ -855,7 +960,7 @@ def n7(e: Engine, rep: Report, rule: str):
                     return n.kind == 'stmt' and \
                         isinstance(n.ast, ast.Assign) and \
                         isinstance(n.ast.targets[0], ast.Subscript) and \
-                        path_of(n.ast.targets[0].value, n.frame) == rv and \
+                        canon(n.ast.targets[0].value, n.frame) == rv and \
                         path_of(n.ast.targets[0].slice, n.frame) == lv
                 # per iteration: either the entry is assigned, or the path
                 # established that it already exists
@@ -864,9 +969,10 @@ def n7(e: Engine, rep: Report, rule: str):
                         return True
                     if is_set(n) and not isinstance(label, tuple):
                         return True
-                    if n.kind == 'test' and label == 'F':
+                    if n.kind == 'test' and label in ('T', 'F'):
                         from ..facts import atoms_of_test
-                        for pol, k in atoms_of_test(n.ast, False, n.frame):
+                        for pol, k in atoms_of_test(n.ast, label == 'T',
+                                                    n.frame):
                             if pol and k == '%s in %s' % (lv, rv):
                                 return True
                     return False
